@@ -2,7 +2,7 @@
    model and by the in-Coq cross-check. *)
 From Coq Require Import ZArith List Bool.
 From PTK Require Import Lib.Sx Lib.Py Lib.C05_Filter Gen.C05_Bindings Model.Document
-  Model.C05_Dispatch Model.C05_Editor.
+  Model.C05_Dispatch Model.C05_Editor Model.C05_BlockInsert.
 Import ListNotations.
 Open Scope Z_scope.
 
@@ -114,6 +114,22 @@ Definition run_C05 (c : sx) : sx :=
       match dec_state st, map_opt dec_bop ops with
       | Some s, Some ops' => L (run_bops s ops')
       | _, _ => bad_case
+      end
+  | L [A 6; a; A patched] =>
+      (* KeyPressEvent.arg for the accumulated argument string *)
+      match as_opt as_str a with
+      | Some a' =>
+          match (if patched =? 1 then event_arg a' else event_arg_pinned a') with
+          | Some n => L [A 0; A n]
+          | None => L [A E_VALUE]
+          end
+      | None => bad_case
+      end
+  | L [A 7; st; A after] =>
+      (* vi.py insert_in_block_selection (I / A on a block selection) through _call_handler *)
+      match dec_state st with
+      | Some s => enc_eres (call_block_insert (after =? 1) s)
+      | None => bad_case
       end
   | L [A 4; st] =>
       match dec_state st with
